@@ -41,6 +41,30 @@ def plan(tier, seed):
     return cases
 
 
+def extend_focused(m, rnd):
+    """more consumers for the focused project: a script-only deterministic checkout with a checkout variable (its re-execution is
+    decided by the recorded directory state alone), and one recipe that coexists in two variants below two parents"""
+    k0 = lambda: {k: [] for k in projgen.KINDS}
+    T = lambda: projgen.new_tok(rnd)
+    m["recipes"]["gen"] = {"env": {"GV": "0"}, "vars": {"checkout": ["GV"], "build": [], "package": []}, "weak": k0(), "cdet": True,
+                           "tok": {"checkout": T(), "build": T(), "package": T()}, "tools": k0(), "toolsWeak": k0(), "depends": []}
+    m["recipes"]["vlib"] = {"env": {}, "vars": {"checkout": [], "build": ["VV"], "package": []}, "weak": k0(), "tok": {"checkout": None, "build": T(), "package": T()},
+                            "tools": k0(), "toolsWeak": k0(), "depends": []}
+    for n, v in (("p1", "0"), ("p2", "1")):
+        m["recipes"][n] = {"env": {}, "vars": k0(), "weak": k0(), "tok": {"checkout": None, "build": T(), "package": T()}, "tools": k0(), "toolsWeak": k0(),
+                           "depends": [{"name": "vlib", "env": {"VV": v}}]}
+    m["recipes"]["root"]["depends"] += [{"name": "gen"}, {"name": "p1"}, {"name": "p2"}]
+    nxt = {"0": "2", "1": "3", "2": "4", "3": "5", "4": "0", "5": "1"}
+    def variant(pn):
+        def f(mm):
+            d = mm["recipes"][pn]["depends"][0]["env"]; d["VV"] = nxt[d["VV"]]
+        return f
+    def genvar(mm):
+        e = mm["recipes"]["gen"]["env"]; e["GV"] = nxt[e["GV"]]
+    return [("gen-checkout-script", lambda mm: mm["recipes"]["gen"]["tok"].__setitem__("checkout", T())), ("gen-checkout-var-samelen", genvar),
+            ("second-variant-env-samelen", variant("p2")), ("first-variant-env-samelen", variant("p1")), ("second-variant-env-samelen-again", variant("p2"))]
+
+
 def run_case(case):
     rnd = random.Random(case["seed"])
     counters = dict.fromkeys(REQUIRED_COUNTERS, 0)
@@ -49,7 +73,9 @@ def run_case(case):
     jobs = case["jobs"] if "jobs" in case else (rnd.choice(["-j1", "-j4"]) if rnd.random() < 0.6 else None)
     extra = [jobs] if jobs else []
     if case.get("focused"):
-        return run_history(case, rnd, counters, mode, jobs, extra, ["focused"], projgen.focused_model(rnd), projgen.focused_edits(rnd))
+        fm, fe = projgen.focused_model(rnd), projgen.focused_edits(rnd)
+        fe += extend_focused(fm, rnd)
+        return run_history(case, rnd, counters, mode, jobs, extra, ["focused"], fm, fe)
     feats = rnd.sample(["classes", "multi", "pdeps", "if", "weak", "fwd", "checkoutscript"], rnd.randrange(2, 7)) + ["src", "tools"]
     size = (4, 7) if case.get("small") else (4, 10)
     model = bobapi.gen_valid_model(rnd, lambda: projgen.gen_model(rnd, rnd.randrange(*size), feats))
